@@ -236,3 +236,47 @@ def _transform_replay(self, ob, r):
 
 Fit.replay = _fit_replay
 Transform.replay = _transform_replay
+
+
+class CreateLookup(Contract):
+    """CorrelationRemover._create_lookup(X) for a DataFrame with kcols columns carrying opaque, pairwise different labels: the callee contract that Fit assumes.
+    Whatever column table an earlier fit left behind (the estimator starts with a stale table), afterwards lookup_ maps exactly the j-th column name of
+    THIS X to position j, for every j, and nothing else; the values of X are returned.  (ndarray inputs: lookup_ = {i: i}, not under contract - stand-in.)"""
+    source, function = CR, "CorrelationRemover._create_lookup"
+
+    def __init__(self, kcols, stale):
+        self.kcols, self.stale = kcols, stale
+        self.variant = f"[DataFrame with {kcols} column(s), estimator {'holds the table of an earlier fit' if stale else 'is fresh'}]"
+
+    def params(self, eng, st):
+        from ..pyvc.core import PyDict
+        self.names = [Abstract("column_label", j=j) for j in range(self.kcols)]          # opaque, pairwise different labels of any type (duplicate labels: not modelled)
+        self.X = Abstract("dataframe", name="X")
+        fields = {}
+        if self.stale:          # same names, other order (the table of a previous fit on a re-ordered frame) plus a name that has gone
+            fields["lookup_"] = PyDict({nm: (self.kcols - 1 - j) for j, nm in enumerate(self.names)})
+            fields["lookup_"].d["gone"] = 7
+        st.env.update({"self": Obj("CorrelationRemover", fields), "X": self.X})
+
+    def on_call(self, eng, st, node, name, recv, args, kwargs):
+        if name == "isinstance" and len(args) == 2 and args[0] is self.X:
+            return any(t in ("pd.DataFrame", "pandas.DataFrame", "DataFrame") for t in args[1])
+        return NotImplemented
+
+    def on_attr(self, eng, st, node, base, attr):
+        if base is self.X and attr == "columns":
+            return PyList(list(self.names))
+        if base is self.X and attr == "values":
+            return Abstract("values_of", of=self.X)
+        return NotImplemented
+
+    def post(self, eng, st, status, value):
+        from ..pyvc.core import PyDict
+        if status != "return":
+            return [("a_DataFrame_is_accepted", BoolVal(False))]
+        lk = st.env["self"].fields.get("lookup_")
+        ok_keys = isinstance(lk, PyDict) and len(lk.d) == self.kcols and all(any(key is nm for key in lk.d) for nm in self.names)
+        ok_vals = ok_keys and all(next(v for key, v in lk.d.items() if key is nm) == j for j, nm in enumerate(self.names))
+        return [("lookup_has_exactly_the_column_names_of_this_X", BoolVal(bool(ok_keys))),
+                ("every_column_name_maps_to_its_position_in_this_X", BoolVal(bool(ok_vals))),
+                ("returns_the_values_of_X", BoolVal(isinstance(value, Abstract) and value.tag == "values_of" and value.of is self.X))]
